@@ -423,8 +423,9 @@ impl DiskCache {
             // item simultaneously.
             if item != cache_item {
                 overlapping_item_paths.insert(self.item_path(key, &item)?);
-                total_bytes_rm += item.len;
             }
+            // the item leaves the in-memory state either way, so its bytes must leave the total as well
+            total_bytes_rm += item.len;
         }
         state.num_items -= num_items_rm;
         state.total_bytes -= total_bytes_rm;
